@@ -128,16 +128,19 @@ func (h *HelloElemVersionBitmap) Header() *HelloElemHeader {
 	return &h.HelloElemHeader
 }
 
+// Len is the size of the element on the wire: header and bitmaps, padded to 8
+// bytes (the Length field excludes the padding).
 func (h *HelloElemVersionBitmap) Len() (n uint16) {
 	n = h.HelloElemHeader.Len()
 	n += uint16(len(h.Bitmaps) * 4)
-	return
+	return (n + 7) / 8 * 8
 }
 
 func (h *HelloElemVersionBitmap) MarshalBinary() (data []byte, err error) {
 	data = make([]byte, int(h.Len()))
 	bytes := make([]byte, 0)
 	next := 0
+	h.Length = h.HelloElemHeader.Len() + uint16(len(h.Bitmaps)*4)
 
 	bytes, err = h.HelloElemHeader.MarshalBinary()
 	copy(data[next:], bytes)
